@@ -78,6 +78,7 @@ def lean_obligations(prop, recheck=False):
         res["log"] = f"{path} missing"
         return res
     with build_lock():
+        res["tables"] = gen_tables()
         rc, out = sh(["lake", "build", "driver"], cwd=LEAN, timeout=3000)
         res["driver_ok"] = rc == 0
         if rc != 0:
@@ -122,6 +123,15 @@ def link_repo():
         if os.path.islink(ln) or os.path.exists(ln):
             os.remove(ln)
         os.symlink(REPO, ln)
+
+
+def gen_tables():
+    """translator half of the tie: rewrite lean/MemcVerif/Generated/Tables.lean from the source under test (call under build_lock)"""
+    rc, out = sh([sys.executable, os.path.join(ROOT, "tools", "gentables.py"), REPO], timeout=120)
+    try:
+        return json.loads(out.strip().splitlines()[-1])
+    except Exception:
+        return {"error": out[-500:]}
 
 
 def harness_build():
